@@ -1,6 +1,6 @@
 (* C06/Proofs.v — the main proofs about [parse]: round trips, totality, check_only, acceptance vs the
    D-Bus grammar (full statement refuted, partial statement proved), recursion depth. *)
-From ZV Require Import Base.Bytes Base.Res C06.Model C06.Spec C06.Classes C06.SpecFacts C06.ParseFacts.
+From ZV Require Import Base.Bytes Base.Res Base.Sig C06.Model C06.Spec C06.Classes C06.SpecFacts C06.ParseFacts C06.EqFacts C06.DepthFacts.
 From Coq Require Import Lia.
 
 (* ---------------------------------------------------------------- [parse] in terms of [many] *)
@@ -112,13 +112,6 @@ Proof.
 Qed.
 
 (* ---------------------------------------------------------------- trees and the string grammar *)
-Lemma lbeq_eq : forall a b : bytes, lbeq a b = true <-> a = b.
-Proof.
-  induction a as [|x a IH]; destruct b as [|y b]; cbn; split; intros H; try congruence; try discriminate.
-  - apply andb_prop in H. destruct H as [H1 H2]. apply beq_true in H1. apply IH in H2. congruence.
-  - inversion H; subst. rewrite beq_refl. cbn. apply IH. reflexivity.
-Qed.
-
 Lemma basic_leaf_show : forall t, basic_leaf t = true -> exists c, show t = [c] /\ basic_code c = true.
 Proof.
   intros t H. destruct t as [c| | | |]; try discriminate.
@@ -292,3 +285,130 @@ Theorem accept_full_refuted : ~ C06_accept_full_statement.
 Proof.
   intros H. destruct nonbasic_key_refuted as (s & Hok & Hnv & _). apply Hnv. apply H. exact Hok.
 Qed.
+
+(* ---------------------------------------------------------------- representation independence *)
+Theorem repr_independent : forall t1 t2, erase t1 = erase t2 ->
+  sig_eq t1 t2 = true /\ sig_hash t1 = sig_hash t2 /\ sig_cmp t1 t2 = Eq /\
+  show t1 = show t2 /\ show_noparens t1 = show_noparens t2 /\ string_len t1 = string_len t2 /\
+  (forall s, eq_str t1 s = eq_str t2 s).
+Proof.
+  intros t1 t2 H. repeat split.
+  - apply sig_eq_iff. exact H.
+  - rewrite <- (hash_erase t1), <- (hash_erase t2), H. reflexivity.
+  - apply sig_cmp_erase_eq. exact H.
+  - rewrite <- (show_erase t1), <- (show_erase t2), H. reflexivity.
+  - unfold show_noparens. rewrite <- (was_erase false t1), <- (was_erase false t2), H. reflexivity.
+  - rewrite <- (string_len_erase t1), <- (string_len_erase t2), H. reflexivity.
+  - intros s. rewrite <- (eq_str_erase t1), <- (eq_str_erase t2), H. reflexivity.
+Qed.
+
+(* the formatter agrees with the plain-tree formatter of Base/Sig.v used by the codec properties *)
+Theorem show_to_sig : forall t, show t = Sig.show (to_sig t).
+Proof.
+  induction t as [c|r c IH|rk k rv v IHk IHv|r fs IH|r c IH] using tsig_ind'.
+  - destruct c; reflexivity.
+  - rewrite show_array. cbn [to_sig Sig.show]. rewrite IH. reflexivity.
+  - unfold show in *. cbn [to_sig Sig.show write_as_string]. rewrite IHk, IHv. rewrite <- app_assoc. reflexivity.
+  - rewrite show_struct. cbn [to_sig Sig.show]. rewrite map_map. f_equal. f_equal. unfold shows.
+    induction IH as [|f fs Hf _ IHfs]; cbn; [reflexivity|]. rewrite Hf, IHfs. reflexivity.
+  - rewrite show_maybe. cbn [to_sig Sig.show]. rewrite IH. reflexivity.
+Qed.
+
+(* ---------------------------------------------------------------- parsed == its own string *)
+Lemma good_parseable : forall gv ts, Forall (good gv) ts -> forallb (parseable gv) ts = true.
+Proof. intros gv ts H. apply good_forall in H. tauto. Qed.
+
+Theorem eq_str_parsed_partial : forall gv s t, from_str gv s = Ok t -> basic_keys t = true -> eq_str t s = Ok true.
+Proof.
+  intros gv s t H Hb. destruct (parse_ok_inv _ _ _ H) as [[-> ->]|(ts & Hne & -> & Hg & ->)]; [reflexivity|].
+  pose proof (good_parseable _ _ Hg) as Hp.
+  destruct ts as [|a [|b l]]; [congruence| |].
+  - cbn [pack] in *. unfold shows. cbn [map concat]. rewrite app_nil_r.
+    apply (eq_str_show gv); [|exact Hb]. cbn in Hp. apply andb_prop in Hp. tauto.
+  - cbn [pack] in *. apply (eq_str_show_noparens gv); [exact Hp|exact Hb].
+Qed.
+
+Definition C06_eq_str_full_statement : Prop :=
+  forall gv s t, from_str gv s = Ok t -> eq_str t s = Ok true.
+
+Theorem eq_str_parsed_refuted :
+  exists s t, from_str false s = Ok t /\ eq_str t s = Ok false /\ classify false s = KNonBasicKey.
+Proof. exists (B "a{(y)s}"). eexists. split; [vm_compute; reflexivity|]. split; vm_compute; reflexivity. Qed.
+
+(* ---------------------------------------------------------------- what `parsed == other` means for another valid signature *)
+Definition C06_eq_str_sound_statement : Prop :=
+  forall gv s1 s2 t1 t2, from_str gv s1 = Ok t1 -> from_str gv s2 = Ok t2 ->
+    eq_str t1 s2 = Ok true -> sig_eq t1 t2 = true.
+
+Theorem eq_str_sound_refuted :
+  exists s1 s2 t1 t2, valid_signature false s1 /\ valid_signature false s2 /\
+    from_str false s1 = Ok t1 /\ from_str false s2 = Ok t2 /\ eq_str t1 s2 = Ok true /\ sig_eq t1 t2 = false /\
+    has_struct t1 = true.
+Proof.
+  exists (B "(y)"), (B "ayb"). eexists. eexists.
+  split; [apply valid_sigb_iff; vm_compute; reflexivity|].
+  split; [apply valid_sigb_iff; vm_compute; reflexivity|].
+  split; [vm_compute; reflexivity|]. split; [vm_compute; reflexivity|].
+  split; [vm_compute; reflexivity|]. split; vm_compute; reflexivity.
+Qed.
+
+Theorem eq_str_sound_partial : forall gv s1 s2 t1 t2, has_struct t1 = false ->
+  from_str gv s1 = Ok t1 -> from_str gv s2 = Ok t2 -> eq_str t1 s2 = Ok true ->
+  sig_eq t1 t2 = true /\ s2 = s1.
+Proof.
+  intros gv s1 s2 t1 t2 Hs H1 H2 He. apply eq_str_sound in He; [|exact Hs]. subst s2.
+  assert (Hg : (s1 = [] /\ t1 = TLeaf CUnit) \/ (s1 = show t1 /\ good gv t1)).
+  { destruct (parse_ok_inv _ _ _ H1) as [[-> ->]|(ts & Hne & -> & Hg & ->)]; [left; split; reflexivity|right].
+    destruct ts as [|a [|b l]]; [congruence| |discriminate Hs].
+    cbn [pack]. inversion Hg; subst. split; [unfold shows; cbn; apply app_nil_r|assumption]. }
+  destruct Hg as [[-> ->]|[Hs1 [Hp Hd]]].
+  - cbn in H2. inversion H2. split; reflexivity.
+  - rewrite show_parse in H2 by (right; exact Hp). inversion H2. split; [|congruence].
+    apply sig_eq_iff. unfold all_dyn in Hd. congruence.
+Qed.
+
+(* ---------------------------------------------------------------- non-vacuity: concrete instances of the hypotheses *)
+Example ex_roundtrip_multi :
+  exists t, from_str false (B "a{sv}(ii)") = Ok t /\ is_struct t = true /\
+            show_noparens t = B "a{sv}(ii)" /\ show t = B "(a{sv}(ii))".
+Proof. eexists. split; [vm_compute; reflexivity|]. repeat split. Qed.
+
+Example ex_roundtrip_single :
+  exists t, from_str true (B "ma(ya{us})") = Ok t /\ show t = B "ma(ya{us})" /\ string_len t = 10.
+Proof. eexists. split; [vm_compute; reflexivity|]. split; reflexivity. Qed.
+
+Example ex_show_parse :
+  let t := TArray Static (TStruct Static [TLeaf CU8; TDict Dynamic (TLeaf CStr) Static (TLeaf CVariant)]) in
+  parseable false t = true /\ show t = B "a(ya{sv})" /\ from_str false (show t) = Ok (erase t) /\ erase t <> t.
+Proof. cbv zeta. repeat split; try (vm_compute; reflexivity). discriminate. Qed.
+
+Example ex_repr :
+  let a := TStruct Static [TArray Static (TLeaf CU8); TDict Static (TLeaf CStr) Static (TLeaf CVariant)] in
+  let b := TStruct Dynamic [TArray Dynamic (TLeaf CU8); TDict Dynamic (TLeaf CStr) Static (TLeaf CVariant)] in
+  a <> b /\ erase a = erase b /\ sig_hash a = [17; 15; 1; 16; 10; 13]%N.
+Proof. cbv zeta. split; [discriminate|]. split; reflexivity. Qed.
+
+Example ex_accept_partial :
+  Known_C06 false (B "a{sa(ii)}x") = false /\ valid_signature false (B "a{sa(ii)}x") /\
+  Known_C06 true (B "mamy") = false /\ valid_signature true (B "mamy") /\ ~ valid_signature false (B "mamy") /\
+  Known_C06 false (B "a{s}") = false /\ is_ok (from_str false (B "a{s}")) = false.
+Proof.
+  split; [vm_compute; reflexivity|]. split; [apply valid_sigb_iff; vm_compute; reflexivity|].
+  split; [vm_compute; reflexivity|]. split; [apply valid_sigb_iff; vm_compute; reflexivity|].
+  split; [apply valid_sigb_false_iff; vm_compute; reflexivity|].
+  split; vm_compute; reflexivity.
+Qed.
+
+Example ex_eq_str :
+  exists t, from_str false (B "a{s(ix)}ay") = Ok t /\ basic_keys t = true /\ eq_str t (B "a{s(ix)}ay") = Ok true /\
+            eq_str t (B "(a{s(ix)}ay)") = Ok true /\ eq_str t (B "a{s(ix)}ab") = Ok false.
+Proof. eexists. split; [vm_compute; reflexivity|]. repeat split; vm_compute; reflexivity. Qed.
+
+Example ex_eq_str_sound :
+  exists t1 t2, from_str false (B "a{say}") = Ok t1 /\ has_struct t1 = false /\ from_str false (B "a{say}") = Ok t2 /\
+                eq_str t1 (B "a{say}") = Ok true.
+Proof. eexists. eexists. split; [vm_compute; reflexivity|]. repeat split; vm_compute; reflexivity. Qed.
+
+Example ex_eq_str_panic :   (* a slice off a char boundary: Signature::dict(Str, Str) == "a{é}" panics *)
+  eq_str (TDict Dynamic (TLeaf CStr) Dynamic (TLeaf CStr)) (B "a{" ++ [xc3; xa9] ++ B "}") = Panic PSlice.
+Proof. vm_compute. reflexivity. Qed.
